@@ -28,7 +28,7 @@ RULE = ("corpus: one witness per recorded finding; adversarial: 40 hand-written 
         "mentions it - 33-case matrix + 40 (quick) / 400 (thorough) random ones, x 2 modes, each run in 4 (quick) / 16 (thorough) fresh processes "
         "(hash orders), a failure in any run counts; multisite: one event name emitted from 2 or 3 sites with different payload types (each with a "
         "nested dependency, reachable from nothing else), every order of the sites x one file | one file per site x helper | struct literal | emit_to, "
-        "49 projects x 2 modes x 2 processes; rebinding: emitting functions whose payload variable is typed by a parameter / typed let / struct literal / path call and then re-bound by 0..2 "
+        "49 projects x 2 modes x 2 processes; mappedcount: COUNT relations between the type collector's collections - 2..6 distinct type-mapped external names (PathBuf, Uuid, Url, Decimal, NaiveDate, Duration) directly in command signatures (parameters of one command / own commands / returns and containers) beside FEW structs: one command-used struct above a chain of nested-only types of length 2..4 (struct or enum at the bottom), no error or event-only struct, 60 projects x 2 modes x 6 (quick) / 16 (thorough) fresh processes (hash order of the worklist); rebinding: emitting functions whose payload variable is typed by a parameter / typed let / struct literal / path call and then re-bound by 0..2 "
         "further lets (untypable method or plain call, reference, copy of another variable, struct literal, typed let) in every order, emitted by value or "
         "by reference (220 projects x 2 modes); layout: serde types defined below module directories named dist, node_modules, build, out, gen, vendor, "
         "tests, examples, benches, bin, .cargo, target2, my_target, git, foo.rs, src, lib (flat, nested, doubled; 51 projects x 2 modes); "
@@ -401,6 +401,7 @@ def run(rep):
         xf.append(("crossfile-random-%d" % i, G.crossfile_random(rng)))
     rep.add("crossfile", evaluate(both(xf), reps=reps))
     rep.add("multisite", evaluate(both(G.multisite_cases()), reps=2))
+    rep.add("mappedcount", evaluate(both(G.mapped_count_cases()), reps=6 if rep.tier == "quick" else 16))
     rep.add("rebinding", evaluate(both(G.rebinding_cases())))
     rep.add("layout", evaluate(both(G.layout_cases())))
     rep.add("names", evaluate(both(G.special_name_cases())))
